@@ -90,6 +90,24 @@ def directed_cases():
     case("delto-twice", small_adds(8) + [["delto", 3], ["delto", 2], ["delto", 0], ["delto", 3], ["delto", 0], ["reopen", "destroy"]])
     case("delto-pending-ci", small_adds(4) + [["setci", 3], ["delto", 2], ["timer"], ["reopen", "destroy"], ["setci", 4], ["delto", 1],
                                               ["reopen", "abandon"]])
+    # head drop and tail drop in ONE session (no reopen in between), records of pairwise different sizes, both
+    # orders: offsets remembered from the file before the head drop must not leak into the tail drop (seeded C08-13)
+    mixed = [["add", i + 1, 1, {"n": n, "s": i}] for i, n in enumerate((3, 50, 7, 120, 1, 33, 64, 9, 200, 17, 0, 81))]
+    for style in ("destroy", "abandon"):
+        case("headdrop-then-taildrop-%s" % style,
+             mixed + [["delto", 3], ["delfrom", 5], ["add", 20, 2, {"n": 13, "s": 20}], ["reopen", style],
+                      ["delfrom", 2], ["add", 21, 2, {"n": 41, "s": 21}], ["reopen", style]])
+        case("taildrop-then-headdrop-%s" % style,
+             mixed + [["delfrom", 9], ["delto", 2], ["add", 20, 2, {"n": 13, "s": 20}], ["reopen", style],
+                      ["delto", 1], ["delfrom", 3], ["add", 21, 2, {"n": 41, "s": 21}], ["reopen", style]])
+        case("headdrop-add-taildrop-%s" % style,
+             mixed[:7] + [["delto", 2], ["add", 20, 2, {"n": 77, "s": 20}], ["add", 21, 2, {"n": 5, "s": 21}], ["delfrom", 4],
+                          ["reopen", style], ["delfrom", 1], ["reopen", style]])
+        case("headdrop-taildrop-to-first-%s" % style,
+             mixed[:6] + [["delto", 4], ["delfrom", 1], ["reopen", style], ["add", 22, 3, {"n": 19, "s": 22}], ["delto", 1],
+                          ["delfrom", 0], ["add", 23, 3, {"n": 2, "s": 23}], ["reopen", style]])
+    case("headdrop-taildrop-12", mixed + small_adds(14, start=30, seed=40) + [["delto", 5], ["delfrom", 9], ["reopen", "destroy"],
+                                                                               ["delto", 2], ["delfrom", 1], ["reopen", "abandon"]])
     # a head drop killed at or before its rename leaves a stale <journal>.tmp: reopen ignores it, the next
     # head drop removes it first (JR); every position of the kill, torn header / record writes included
     for k, t in ((0, 0), (1, 0), (1, 17), (2, 0), (3, 0), (3, 9), (4, 0), (5, 0), (0.999, 0)):
@@ -172,6 +190,22 @@ def _report(jm, model, path, r, out, seen_notes):
         v2 = x["violation"] if x["violation"] is not None else v
         if sig not in [w["signature"] for w in out["violations"]]:
             out["violations"].append(v2)
+    if r["disagreement"] is not None and len(out["violations"]) < 3:
+        # the property's own statement (model-free list monitor) on the WHOLE case as generated: the run stops at
+        # the first disagreement, and the shrunk disagreement below may no longer contain the reopen that shows a
+        # loss; this runs for every disagreeing case, also when its note was reported before
+        full = r.get("full_ops") or r.get("ops") or r["disagreement"]["input"]["ops"]
+        m = lib.monitor_ops(jm, path, full, fac)
+        if m["violation"] is not None and m["violation"]["signature"] not in [w["signature"] for w in out["violations"]]:
+            sig = m["violation"]["signature"]
+
+            def fails2(ops):
+                x = lib.monitor_ops(jm, path, ops, fac)
+                return x["violation"] is not None and x["violation"]["signature"] == sig
+            small = lib.shrink_ops(m["violation"]["replay"]["ops"], fails2, budget=80)
+            x = lib.monitor_ops(jm, path, small, fac)
+            out["violations"].append(x["violation"] if x["violation"] is not None else m["violation"])
+            out["coverage"].hit("monitor_on_disagreeing_case_tripped")
     if r["disagreement"] is not None and len(out["disagreements"]) < 3 and \
             _key(r["disagreement"]["note"]) not in seen_notes:
         d = r["disagreement"]
@@ -209,7 +243,9 @@ def run(ctx):
     out = {"cases": 0, "distinct": 0, "coverage": cov, "samples": [], "disagreements": [], "violations": []}
     hashes, seen_notes = set(), set()
 
-    def finish(name, r, group):
+    def finish(name, r, group, full_ops=None):
+        if full_ops is not None:
+            r["full_ops"] = [list(o) for o in full_ops]      # the whole case as generated (abstract ops)
         out["cases"] += 1
         cov.hit("cases." + group)
         cov.hit("ops_total", len(r["ops"]))
@@ -229,11 +265,11 @@ def run(ctx):
             n += 1
             r = lib.run_case(jm, model, os.path.join(tmp, "c%d" % n), lib.ListSource(c["ops"]), factory=c.get("factory", "FileJournal"),
                              cov=cov, rng=rng)
-            finish(c["name"], r, "corpus")
+            finish(c["name"], r, "corpus", c["ops"])
         for c in directed_cases():
             n += 1
             r = lib.run_case(jm, model, os.path.join(tmp, "d%d" % n), lib.ListSource(c["ops"]), factory=c["factory"], cov=cov, rng=rng)
-            finish(c["name"], r, "directed")
+            finish(c["name"], r, "directed", c["ops"])
         n_rand = ctx.scale(60, 7000)
         n_big = ctx.scale(1, 24)
         budget = ctx.scale(24.0, 230.0)       # safety net only: the counts above are what normally ends the run
